@@ -317,6 +317,19 @@ def stuck_reset_oracle(snap):
     return viol
 
 
+def lost_tail_oracle(snap):
+    """buffered_send_data counts queued DATA plus the tail that is with the codec: bytes that are counted while the queue is empty
+    and nothing is in flight were lost in the hand-over (the stream can never finish)"""
+    viol = []
+    if not snap or snap.get("conn", {}).get("in_flight_data_frame", 1) != 0:
+        return viol
+    for st in snap.get("streams", []):
+        if st.get("buffered_send_data", 0) > 0 and st.get("pending_send_len", 1) == 0:
+            viol.append({"why": "buffered_send_data > 0 but nothing is queued and no DATA frame is in flight: an unwritten tail was lost",
+                         "stream": st.get("id"), "buffered_send_data": st.get("buffered_send_data"), "state": st.get("state")})
+    return viol
+
+
 def driver_pattern_oracle(sc):
     """driver traces carry a polynomial checksum and the first byte of every DATA frame: recompute both from the byte pattern
     at the running offset of the stream (a duplicated, lost or reordered byte changes them)"""
@@ -418,6 +431,8 @@ def oracle_inject(rep, scs):
     for sc in scs:
         frames = [f for st in sc["trace"] for f in st["out"]]
         v = wire_order_oracle(frames) + driver_pattern_oracle(sc)
+        for st in sc["trace"][-3:]:
+            v += lost_tail_oracle(st.get("snap"))
         if sc.get("settled") and sc["trace"] and not any(st["op"].get("op") in ("eof", "read_fail", "drop_conn") or
                                                         (st["op"].get("op") == "write_mode" and st["op"].get("mode") in ("fail", "zero"))
                                                         for st in sc["trace"]):
@@ -679,6 +694,7 @@ def correspond_threads(rep, tier, seed):
         v += lv
         if run.get("settled"):
             v += stuck_reset_oracle(run.get("snap"))
+        v += lost_tail_oracle(run.get("snap"))
         for o in run["ops"]:
             r = o.get("res")
             if isinstance(r, dict) and r.get("pattern_ok") is False:
@@ -797,6 +813,26 @@ def replay_case(path):
     with open(path) as f:
         v = json.load(f)
     model, case = v.get("model"), v.get("coq_case")
+    if not case and v.get("scenario"):
+        # an inject scenario (op list): re-run it on the current tree and apply the oracles again
+        os.makedirs(common.CASES, exist_ok=True)
+        p = os.path.join(common.CASES, "c20_replay_scenario.json")
+        with open(p, "w") as f:
+            json.dump(v["scenario"], f)
+        rc, o = common.run_harness("conn", ["--replay", p], timeout=240)
+        if rc == 124:
+            print("VIOLATION property=C20 replay=%s (the driver hangs: deadlock)" % path)
+            return 1
+        scs, _ = sendflow.load_scenarios(o)
+        rep = common.Report("C20", "quick", 1)
+        for sc in scs:
+            sc["settled"] = True
+        n = oracle_inject(rep, scs)
+        if n:
+            print("VIOLATION property=C20 replay=%s (oracles fail again: see %s)" % (path, rep.violations[0][0] if rep.violations else "?"))
+            return 1
+        print("OK: the oracles accept the scenario on the current tree")
+        return 0
     if not case:
         print("replay file carries no Coq case (harness-level failure): rerun hint: %s" % v.get("rerun"))
         return 2
